@@ -78,10 +78,15 @@ class RecordingApp(httputil.HTTPServerConnectionDelegate):
         self.log = log
         self.records = []
         self.conn_closed = []  # server_conn ids for which on_close ran
-        self._conn_ids = {}
+        self._conns = []
 
     def _cid(self, server_conn):
-        return self._conn_ids.setdefault(id(server_conn), len(self._conn_ids))
+        # keep a reference: id() of a freed connection may be reused by a later one
+        for i, c in enumerate(self._conns):
+            if c is server_conn:
+                return i
+        self._conns.append(server_conn)
+        return len(self._conns) - 1
 
     def start_request(self, server_conn, request_conn):
         rec = Rec(len(self.records), self._cid(server_conn))
